@@ -2,7 +2,7 @@
    Only property theorems here, each closed by `exact <lemma>`; proofs are in Proofs*.v; Link.v ties the character
    test of valid_sid to the source.  `fresh` is the random source (i-th identifier); the theorems that need it assume
    that it yields well-formed (fresh_ok) resp. pairwise distinct (fresh_inj) identifiers. *)
-From CppcmsV Require Import Base.Tac C06.Defs C06.Proofs C06.ProofsNum C06.ProofsMap C06.Proofs2 C06.Proofs3 C06.Proofs4 C06.Proofs5 C06.Proofs6 C06.Proofs7 C06.Proofs8 C06.Proofs10 C06.Proofs9 C06.Proofs11 C06.Proofs12 C06.Proofs13 C06.ProofsWin C06.ProofsWin2 C06.ProofsWin3 C06.Proofs14 C06.Proofs15 C06.Proofs16 C06.Proofs17.
+From CppcmsV Require Import Base.Tac C06.Defs C06.Proofs C06.ProofsNum C06.ProofsMap C06.Proofs2 C06.Proofs3 C06.Proofs4 C06.Proofs5 C06.Proofs6 C06.Proofs7 C06.Proofs8 C06.Proofs10 C06.Proofs9 C06.Proofs11 C06.Proofs12 C06.Proofs13 C06.ProofsWin C06.ProofsWin2 C06.ProofsWin3 C06.Proofs14 C06.Proofs15 C06.Proofs16 C06.Proofs17 C06.Proofs18 C06.Proofs19 C06.Proofs20 C06.Proofs21.
 Local Open Scope N_scope.
 
 (* ------------------------------------------------------------------------------------------------------------
@@ -656,49 +656,51 @@ Example save_nonvacuous :
 Proof. vm_compute. repeat split. Qed.
 
 (* ------------------------------------------------------------------------------------------------------------
-   8. exposed_in_step.
+   8. exposed_in_step (code after /repo fc690f4 + 75ecec5: update_exposed(force_update, new_session_ || how_!=fixed)).
       (i)   after any save that reaches update_exposed, every prefix_key cookie left in the jar belongs to a key that the
             session exposes (hidden / erased / unknown keys disappear);
-      (ii)  every exposed non-empty value that is new / changed / newly exposed, or any one when the update is forced, is
-            sent with the lifetime of the session cookie;
-      (iii) exposed_save_in_step / exposed_in_step (repaired code, /repo fc690f4): a save that goes through in RENEW mode
-            leaves the cookie of EVERY exposed non-empty value in the jar with exactly the lifetime of the session cookie,
-            and after any history that does not touch that browser the browser holds all of them for as long as it holds
-            the session cookie.
-      Not proved as a theorem over all modes: for expiration browser, and for reset_session() in fixed mode, the
-      implementation (and the faithful model) does not re-send unchanged exposed values although the session cookie gets
-      a later end (KNOWN FINDING exposed-cookie-not-renewed-with-session-cookie, see exposed_not_renewed_refuted). *)
-Theorem exposed_cookies_only_for_exposed_keys : forall now age force s x kv,
-  In kv (update_exposed now age force s x) -> is_exposed (fst kv) (s_data s) = true.
-Proof. intros now age force s x kv H. unfold update_exposed in H. apply filter_In in H. exact (proj2 H). Qed.
+      (ii)  every exposed non-empty value that is new / changed / newly exposed, or any one when the update is forced or all
+            are sent again, is sent with the lifetime of the session cookie;
+      (iii) lifetime_renewed s: the save gives the session cookie a new lifetime - always in renew and browser mode, in fixed
+            mode for a new or reset session.  exposed_save_in_step / exposed_in_step / .._across_quiet_requests: such a save
+            leaves the cookie of EVERY exposed non-empty value with exactly the lifetime of the session cookie, and the
+            browser holds all of them for as long as it holds the session cookie;
+      (iv)  all modes: exposed_save_in_step_all_modes / exposed_in_step_preserved_by_every_request - in fixed mode without
+            reset the lifetime stays as it is and so do the cookies of unchanged exposed values: "the cookie of every exposed
+            value ends with the session cookie" is re-established by EVERY save (sent again, or already there with the
+            lifetime that is kept).  The witnesses of the former findings are regression Examples now. *)
+Theorem exposed_cookies_only_for_exposed_keys : forall now age force resend s x kv,
+  In kv (update_exposed now age force resend s x) -> is_exposed (fst kv) (s_data s) = true.
+Proof. intros now age force resend s x kv H. unfold update_exposed in H. apply filter_In in H. exact (proj2 H). Qed.
 Print Assumptions exposed_cookies_only_for_exposed_keys.
 
 (* proved positive half: the cookie of every exposed entry with a non-empty value that is new, changed or newly exposed
    (entry_changed w.r.t. what was loaded), and of every exposed entry when the update is forced (an unchanged session
    that is being renewed), is in the jar after update_exposed, with that value and the lifetime of the session cookie *)
-Theorem exposed_changed_or_forced_is_sent : forall now age force s x k v ex,
+Theorem exposed_changed_or_forced_is_sent : forall now age force resend s x k v ex,
   ssorted (s_data s) -> dfind k (s_data s) = Some (v, true) -> v <> [] ->
-  force = true \/ entry_changed (s_copy s) k v = true ->
+  force = true \/ resend = true \/ entry_changed (s_copy s) k v = true ->
   age_exp now age = Some ex ->
-  In (k, (v, ex)) (update_exposed now age force s x).
+  In (k, (v, ex)) (update_exposed now age force resend s x).
 Proof. exact update_exposed_sends. Qed.
 Print Assumptions exposed_changed_or_forced_is_sent.
 Example exposed_sent_nonvacuous :
   In ([97], ([49], EAt 1000100%Z))
-     (update_exposed 1000000%Z 100%Z false (mksess [([97], ([49], true)); ([98], ([50], false))] [([97], ([49], false))] 100%Z 1%Z 0%Z false false)
+     (update_exposed 1000000%Z 100%Z false false (mksess [([97], ([49], true)); ([98], ([50], false))] [([97], ([49], false))] 100%Z 1%Z 0%Z false false)
                      [([98], ([57], ESession)); ([122], ([57], ESession))]).
-Proof. apply exposed_changed_or_forced_is_sent; try reflexivity; [cbn; repeat constructor|discriminate|right; reflexivity]. Qed.
+Proof. apply exposed_changed_or_forced_is_sent; try reflexivity; [cbn; repeat constructor|discriminate|right; right; reflexivity]. Qed.
 
 (* one save that goes through (not empty, not one of the two early returns, no exception): the session cookie has the
-   lifetime ex of cookie_age; in renew mode the cookie of every exposed non-empty value is in the jar with the same ex
-   (in the other modes: of every value that is new / changed / newly exposed) *)
+   lifetime ex of cookie_age; when that lifetime is new (lifetime_renewed: renew, browser, or a new / reset session in fixed
+   mode) the cookie of every exposed non-empty value is in the jar with the same ex (otherwise: of every value that is new /
+   changed / newly exposed) *)
 Theorem exposed_save_in_step : forall fresh c w b s blob w1 l1 ex,
   dempty (s_data s) = false -> ssorted (s_data s) -> skipped (w_now w) s = false -> save_data (s_data s) = Some blob ->
   si_save fresh c w b s = (w1, l1, None) ->
   age_exp (w_now w) (cookie_age (w_now w) s (newsess_of s)) = Some ex ->
   (exists ck, j_sess (get_jar w1 b) = Some (ck, ex)) /\
   forall k v, dfind k (s_data s) = Some (v, true) -> v <> [] ->
-    s_how s = 1%Z \/ entry_changed (s_copy s) k v = true ->
+    lifetime_renewed s = true \/ entry_changed (s_copy s) k v = true ->
     In (k, (v, ex)) (j_exp (get_jar w1 b)).
 Proof. exact si_save_exposed. Qed.
 Print Assumptions exposed_save_in_step.
@@ -719,7 +721,7 @@ Theorem exposed_in_step : forall fresh c w b script1 s' blob ex l,
   let j := jar_expire (w_now w2) (get_jar w2 b) in
   (exists ck, j_sess j = Some (ck, ex)) /\
   forall k v, dfind k (s_data s') = Some (v, true) -> v <> [] ->
-    s_how s' = 1%Z \/ entry_changed (s_copy s') k v = true ->
+    lifetime_renewed s' = true \/ entry_changed (s_copy s') k v = true ->
     In (k, (v, ex)) (j_exp j).
 Proof. exact exposed_in_step_history. Qed.
 Print Assumptions exposed_in_step.
@@ -776,7 +778,7 @@ Theorem exposed_in_step_across_quiet_requests : forall fresh c w b script1 s' bl
   let w2 := fst (run fresh c w1 l) in
   exp_live (w_now w2) ex = true ->
   forall k v, dfind k (s_data s') = Some (v, true) -> v <> [] ->
-    s_how s' = 1%Z \/ entry_changed (s_copy s') k v = true ->
+    lifetime_renewed s' = true \/ entry_changed (s_copy s') k v = true ->
     in_step b k v ex (jar_expire (w_now w2) (get_jar w2 b)).
 Proof. exact exposed_in_step_quiet. Qed.
 Print Assumptions exposed_in_step_across_quiet_requests.
@@ -817,11 +819,11 @@ Qed.
    value that was exposed before with the same value is left in the jar exactly as it is.  fixed_mode_save_keeps_in_step: a
    save in fixed mode of a session that is neither new nor reset keeps the deadline that was loaded (s_tin), gives the session
    cookie exactly that end, and leaves the cookie of every unchanged exposed value alone - cookies that ended together with the
-   session cookie before the request still do afterwards.  (reset_session() in fixed mode is the case that breaks this: see
-   exposed_not_renewed_refuted and the finding.) *)
+   session cookie before the request still do afterwards.  (With reset_session() the lifetime is new and everything is sent
+   again: lifetime_renewed.) *)
 Theorem update_exposed_keeps_unchanged : forall now age s x k v c,
   ssorted (s_data s) -> dfind k (s_data s) = Some (v, true) -> entry_changed (s_copy s) k v = false ->
-  In (k, c) x -> In (k, c) (update_exposed now age false s x).
+  In (k, c) x -> In (k, c) (update_exposed now age false false s x).
 Proof. exact update_exposed_keeps. Qed.
 Print Assumptions update_exposed_keeps_unchanged.
 Theorem fixed_mode_save_keeps_in_step : forall fresh c w b s blob w1 l1 k v,
@@ -856,6 +858,101 @@ Proof.
                   eq_refl Hso Hk eq_refl eq_refl eq_refl Hlt Hs eq_refl eq_refl Hin)).
 Qed.
 
+(* fixed mode along histories.  fixed_mode_keeps_in_step_along_histories: a cookie of an exposed value that ends at the deadline dl
+   of the session (`holds` .. with session cookie and cookie of k ending at dl) is still in step after ANY history of foreign steps
+   and b's own unchanged requests (mixed_run) followed by a saving request of b that is neither new nor reset and still exposes
+   k = v.  exposed_in_step_chain_fixed: the same with the premise established by a first request r1 from any world satisfying the
+   reachable-world invariants: r1 saves in fixed mode and sends the cookie; history; r2 saves: session cookie and cookie of k still
+   end together at the deadline r1 set.  Together with exposed_save_in_step (renewed lifetime: everything is sent again) this is
+   the in-step property along histories in all three modes. *)
+Theorem fixed_mode_keeps_in_step_along_histories : forall fresh, (forall m n, fresh m = fresh n -> m = n) ->
+  forall c b id dl blob xj l w m t sv script blob2 k v,
+  c_loc c <> 1 ->
+  holds fresh b id (dl, blob) (mkjar (Some (CRaw (73 :: id), EAt dl)) xj) w -> sid_ok id = true ->
+  In (k, (v, EAt dl)) xj ->
+  mixed_run fresh c b id w l ->
+  load_data blob = LOk m ->
+  special k_t m (c_timeout c) = Some t -> special k_h m (c_how c) = Some 0%Z -> special k_s m 0%Z = Some sv ->
+  let w2 := fst (run fresh c w l) in
+  (w_now w2 < dl)%Z ->
+  let s2 := apply_ops c (mksess m m t 0%Z dl (Z.odd sv) false) script in
+  s_how s2 = 0%Z -> newsess_of s2 = false ->
+  dempty (s_data s2) = false -> skipped (w_now w2) s2 = false -> save_data (s_data s2) = Some blob2 ->
+  o_exc (snd (request fresh c w2 b script)) = None ->
+  dfind k (s_data s2) = Some (v, true) -> v <> [] ->
+  in_step b k v (EAt dl) (get_jar (fst (request fresh c w2 b script)) b).
+Proof. exact fixed_mode_chain. Qed.
+Print Assumptions fixed_mode_keeps_in_step_along_histories.
+Theorem exposed_in_step_chain_fixed_mode : forall fresh, (forall m n, fresh m = fresh n -> m = n) ->
+  forall c w b script1 s' blob t1 l script2 blob2 k v,
+  server_side c s' blob ->
+  sid_ok (fresh (w_next w)) = true ->
+  store_issued fresh w -> jars_not_future fresh w ->
+  (forall b' id, b' <> b -> valid_sid (j_sess (get_jar w b')) = Some id -> valid_sid (j_sess (get_jar w b)) <> Some id) ->
+  req_state c w b script1 = Some s' ->
+  forallb op_keeps script1 = true ->
+  dempty (s_data s') = false -> skipped (w_now w) s' = false -> save_data (s_data s') = Some blob ->
+  s_how s' = 0%Z ->
+  age_exp (w_now w) (cookie_age (w_now w) s' (newsess_of s')) = Some (EAt t1) ->
+  dfind k (s_data s') = Some (v, true) -> v <> [] ->
+  lifetime_renewed s' = true \/ entry_changed (s_copy s') k v = true ->
+  let w1 := fst (request fresh c w b script1) in
+  (forall id, valid_sid (j_sess (get_jar w1 b)) = Some id -> mixed_run fresh c b id w1 l) ->
+  let w2 := fst (run fresh c w1 l) in
+  (w_now w2 < t1)%Z ->
+  let s2 := apply_ops c (mksess (s_data s') (s_data s') (s_tval s') 0%Z t1 (s_onsrv s') false) script2 in
+  s_how s2 = 0%Z -> newsess_of s2 = false ->
+  dempty (s_data s2) = false -> skipped (w_now w2) s2 = false -> save_data (s_data s2) = Some blob2 ->
+  o_exc (snd (request fresh c w2 b script2)) = None ->
+  dfind k (s_data s2) = Some (v, true) ->
+  in_step b k v (EAt t1) (get_jar (fst (request fresh c w2 b script2)) b).
+Proof. exact exposed_in_step_chain_fixed. Qed.
+Print Assumptions exposed_in_step_chain_fixed_mode.
+Definition fx_c : cfg := mkcfg 0 0 100%Z 64.
+Definition fx_script1 : list scr := [Oset [97] [49]; Oexpose [97]; Oage 50%Z].
+Definition fx_s1 : sess := mksess [([95; 116], ([53; 48], false)); ([97], ([49], true))] [] 50%Z 0%Z 0%Z false false.
+Definition fx_blob1 : bytes := Eval vm_compute in match save_data (s_data fx_s1) with Some x => x | None => [] end.
+Definition fx_w1 : world := Eval vm_compute in fst (request ex_fresh fx_c ex_w0 0 fx_script1).
+Definition fx_l : list step := [StT 10%Z; StR 0 []; StR 1 [Oset [98] [50]]; StAraw 2 [73; 120]; StT 5%Z].
+Definition fx_w2 : world := Eval vm_compute in fst (run ex_fresh fx_c fx_w1 fx_l).
+Definition fx_script2 : list scr := [Oset [98] [50]; Ohide [99]].
+Definition fx_s2 : sess := Eval vm_compute in apply_ops fx_c (mksess (s_data fx_s1) (s_data fx_s1) 50%Z 0%Z 1000050%Z false false) fx_script2.
+Definition fx_blob2 : bytes := Eval vm_compute in match save_data (s_data fx_s2) with Some x => x | None => [] end.
+Example fixed_chain_nonvacuous :
+  in_step 0 [97] [49] (EAt 1000050%Z)
+    (get_jar (fst (request ex_fresh fx_c (fst (run ex_fresh fx_c (fst (request ex_fresh fx_c ex_w0 0 fx_script1)) fx_l)) 0 fx_script2)) 0).
+Proof.
+  assert (fst (request ex_fresh fx_c ex_w0 0 fx_script1) = fx_w1) as E1 by (vm_compute; reflexivity).
+  assert (fst (run ex_fresh fx_c fx_w1 fx_l) = fx_w2) as E2 by (vm_compute; reflexivity).
+  assert (mixed_run ex_fresh fx_c 0 (ex_fresh 48) fx_w1 fx_l) as Hm.
+  { unfold fx_l. cbn [mixed_run].
+    split; [left; cbn [foreign_step]; lia|].
+    split; [right; eexists _, _; split; [reflexivity|]; split; [vm_compute; reflexivity|]; split; vm_compute; reflexivity|].
+    split; [left; cbn [foreign_step]; discriminate|].
+    split; [left; cbn [foreign_step]; split; discriminate|].
+    split; [left; cbn [foreign_step]; lia|].
+    exact I. }
+  refine (exposed_in_step_chain_fixed_mode ex_fresh ex_fresh_inj fx_c ex_w0 0%nat fx_script1 fx_s1 fx_blob1 1000050%Z fx_l fx_script2 fx_blob2 [97] [49]
+            (or_introl eq_refl) eq_refl _ _ _ _ eq_refl eq_refl _ _ eq_refl _ eq_refl _ (or_introl eq_refl) _ _ _ _ _ _ _ _ _).
+  - intros id H. contradiction H. reflexivity.
+  - intros b id H. unfold get_jar, ex_w0 in H. cbn [w_jars] in H. destruct b; discriminate H.
+  - intros b' id Hb H. unfold get_jar, ex_w0 in H. cbn [w_jars] in H. destruct b'; discriminate H.
+  - vm_compute; reflexivity.
+  - vm_compute; reflexivity.
+  - vm_compute; reflexivity.
+  - vm_compute; reflexivity.
+  - discriminate.
+  - rewrite E1. intros id H. vm_compute in H. injection H as <-. exact Hm.
+  - rewrite E1, E2. vm_compute. reflexivity.
+  - vm_compute; reflexivity.
+  - vm_compute; reflexivity.
+  - vm_compute; reflexivity.
+  - rewrite E1, E2. vm_compute; reflexivity.
+  - vm_compute; reflexivity.
+  - rewrite E1, E2. vm_compute; reflexivity.
+  - vm_compute; reflexivity.
+Qed.
+
 (* regression of the repaired defect exposed-cookie-expired-before-session (/repo fc690f4; the history is
    corpus/C06/finding_exposed_expiry.case): timeout 10, renew.  The third request finds the session alive with a exposed,
    and the browser holds the cookie of a with the lifetime of the session cookie (before the repair: j_exp j = []). *)
@@ -869,26 +966,95 @@ Example exposed_in_step_regression :
   j_exp j = [([97], ([49], EAt 1000021%Z))].
 Proof. vm_compute. repeat split. Qed.
 
-(* KNOWN FINDING exposed-cookie-not-renewed-with-session-cookie (replayed on the implementation by
-   corpus/C06/finding_exposed_not_renewed.case): with expiration browser - and with reset_session() in fixed mode - a
-   data-changing save moves the end of the session but does not re-send unchanged exposed values.  The faithful model shows
-   it: the last request finds the session alive with a exposed, the browser holds the session cookie but no cookie for a.
-   Full statement that does not hold:
-     forall histories, after each request of b whose session is alive and exposes k with value v <> "",
-     the jar of b contains prefix_k = v for as long as it contains the session cookie. *)
-Theorem exposed_not_renewed_refuted :
-  exists c l, let '(w, obs) := run fresh_hex c world0 l in
-    let j := jar_expire (w_now w) (get_jar w 0) in
-    nth 0 (rev obs) None = Some (mkobs (Some (true, [([95; 104], ([50], false)); ([97], ([49], true)); ([98], ([50], false))], 10%Z, 2%Z, false)) None
-                                        [OpL (fresh_hex 0) true; OpS (fresh_hex 0) 1000022%Z [2;8;0;0;95;104;50;1;12;0;0;97;49;1;8;0;0;98;51]]) /\
-    j_sess j = Some (CRaw (73 :: fresh_hex 0), ESession) /\
-    j_exp j = [].
+(* all modes.  One save that goes through: the cookie of an exposed non-empty value is in the jar with the lifetime ex of the
+   session cookie if it is (re)sent - lifetime_renewed, or the entry is new / changed - or if it was in the jar with that
+   lifetime before (fixed mode without reset: the lifetime is kept and the cookie is left alone). *)
+Theorem exposed_save_in_step_all_modes : forall fresh c w b s blob w1 l1 ex,
+  dempty (s_data s) = false -> ssorted (s_data s) -> skipped (w_now w) s = false -> save_data (s_data s) = Some blob ->
+  si_save fresh c w b s = (w1, l1, None) ->
+  age_exp (w_now w) (cookie_age (w_now w) s (newsess_of s)) = Some ex ->
+  (exists ck, j_sess (get_jar w1 b) = Some (ck, ex)) /\
+  forall k v, dfind k (s_data s) = Some (v, true) -> v <> [] ->
+    In (k, (v, ex)) (j_exp (get_jar w b)) \/ lifetime_renewed s = true \/ entry_changed (s_copy s) k v = true ->
+    In (k, (v, ex)) (j_exp (get_jar w1 b)).
+Proof. exact si_save_exposed_all. Qed.
+Print Assumptions exposed_save_in_step_all_modes.
+(* the same for a whole request (any script, location, back-end): in_step of an exposed value - its cookie ends with the session
+   cookie - is re-established by every request that saves *)
+Theorem exposed_in_step_preserved_by_every_request : forall fresh c w b script s' blob ex,
+  req_state c w b script = Some s' ->
+  dempty (s_data s') = false -> skipped (w_now w) s' = false -> save_data (s_data s') = Some blob ->
+  o_exc (snd (request fresh c w b script)) = None ->
+  age_exp (w_now w) (cookie_age (w_now w) s' (newsess_of s')) = Some ex ->
+  forall k v, dfind k (s_data s') = Some (v, true) -> v <> [] ->
+    In (k, (v, ex)) (j_exp (jar_expire (w_now w) (get_jar w b))) \/ lifetime_renewed s' = true \/ entry_changed (s_copy s') k v = true ->
+    in_step b k v ex (get_jar (fst (request fresh c w b script)) b).
+Proof. exact request_keeps_in_step. Qed.
+Print Assumptions exposed_in_step_preserved_by_every_request.
+
+(* regressions of the repaired defect exposed-cookie-not-renewed-with-session-cookie (/repo 75ecec5; the histories are in
+   corpus/C06/regress_exposed_not_renewed.case).  (a) fixed 10 s, a=1 exposed, expiration(browser), two data-changing requests
+   6 s apart: the last request finds the session alive with a exposed and the browser holds the cookie of a as a browser-session
+   cookie like the session cookie (before the repair: j_exp j = []). *)
+Example exposed_browser_mode_regression :
+  let '(w, obs) := run fresh_hex (mkcfg 0 0 10%Z 64) world0
+                       [StR 0 [Oset [97] [49]; Oexpose [97]]; StR 0 [Ohow 2%Z]; StT 6%Z; StR 0 [Oset [98] [50]]; StT 6%Z; StR 0 [Oset [98] [51]]] in
+  let j := jar_expire (w_now w) (get_jar w 0) in
+  nth 0 (rev obs) None = Some (mkobs (Some (true, [([95; 104], ([50], false)); ([97], ([49], true)); ([98], ([50], false))], 10%Z, 2%Z, false)) None
+                                      [OpL (fresh_hex 0) true; OpS (fresh_hex 0) 1000022%Z [2;8;0;0;95;104;50;1;12;0;0;97;49;1;8;0;0;98;51]]) /\
+  j_sess j = Some (CRaw (73 :: fresh_hex 0), ESession) /\
+  j_exp j = [([97], ([49], ESession))].
+Proof. vm_compute. repeat split. Qed.
+(* (b) fixed 10 s, a=1 exposed, 5 s later reset_session(): new id, session cookie and the cookie of a both end at +15 *)
+Example exposed_fixed_reset_regression :
+  let '(w, obs) := run fresh_hex (mkcfg 0 0 10%Z 64) world0 [StR 0 [Oset [97] [49]; Oexpose [97]]; StT 5%Z; StR 0 [Oreset]; StT 6%Z] in
+  let j := jar_expire (w_now w) (get_jar w 0) in
+  j_sess j = Some (CRaw (73 :: fresh_hex 1), EAt 1000015%Z) /\ j_exp j = [([97], ([49], EAt 1000015%Z))].
+Proof. vm_compute. repeat split. Qed.
+(* deletion cookies: a renew-mode save that changes data sends every exposed value again but deletion cookies only for keys
+   that were exposed before or that the request carried a cookie for - not for every hidden key (fc690f4 had that side effect) *)
+Example no_deletion_for_hidden_keys_regression :
+  let c := mkcfg 0 1 10%Z 64 in
+  let w := fst (run fresh_hex c world0 [StR 0 [Oset [97] [49]; Oexpose [97]; Oset [98] [50]; Oset [99] [51]; Oexpose [99]]; StT 5%Z]) in
+  request_dels fresh_hex c w 0 [Oset [98] [52]; Ohide [99]] = [[99]] /\
+  request_dels fresh_hex c (fst (run fresh_hex c w [StT 2%Z])) 0 [] = [[98]] /\      (* renewal of the unchanged session: forced *)
+  request_dels fresh_hex c w 0 [Oclear] = [[97]; [99]].
+Proof. vm_compute. repeat split. Qed.
+
+(* deletion cookies (the sorted key set exposed_dels, observed by the correspondence harness as del=[..]): every deletion cookie
+   update_exposed emits is justified - the key is an exposed entry sent with an empty value (or a negative age), or was exposed in
+   what the request loaded, or the request carried a prefix_key cookie for it although the session does not expose it, or - on a
+   FORCED update only - it is a hidden entry.  no_deletion_cookie_for_hidden_key_on_resend: a save that is not forced and merely
+   sends every exposed value again (75ecec5: resend) never emits a deletion cookie for a hidden key that was never exposed and
+   that the browser does not hold. *)
+Theorem deletion_cookies_are_justified : forall now age force resend s x k,
+  In k (exposed_dels now age force resend s x) ->
+  (exists v, In (k, (v, true)) (s_data s) /\ (v = [] \/ age_exp now age = None)) \/
+  (exists v2, In (k, (v2, true)) (s_copy s)) \/
+  (exists c, In (k, c) x /\ is_exposed k (s_data s) = false) \/
+  (force = true /\ exists v, In (k, (v, false)) (s_data s)).
+Proof. exact deletion_cookie_justified. Qed.
+Print Assumptions deletion_cookies_are_justified.
+Theorem no_deletion_cookie_for_hidden_key_on_resend : forall now age resend s x k v,
+  In (k, (v, false)) (s_data s) -> ssorted (s_data s) ->
+  (forall v2, ~ In (k, (v2, true)) (s_copy s)) -> (forall c, ~ In (k, c) x) ->
+  ~ In k (exposed_dels now age false resend s x).
+Proof. exact resend_deletes_no_hidden_key. Qed.
+Print Assumptions no_deletion_cookie_for_hidden_key_on_resend.
+Example deletion_cookies_nonvacuous :
+  let s := mksess [([97], ([49], true)); ([98], ([50], false)); ([99], ([51], false))]
+                  [([97], ([49], true)); ([98], ([48], false)); ([99], ([51], true))] 10%Z 1%Z 1000010%Z false false in
+  let x := [([97], ([49], EAt 1000010%Z)); ([99], ([51], EAt 1000010%Z))] in
+  ~ In [98] (exposed_dels 1000005%Z 10%Z false true s x) /\
+  exposed_dels 1000005%Z 10%Z false true s x = [[99]] /\ exposed_dels 1000005%Z 10%Z true false s x = [[98]; [99]].
 Proof.
-  exists (mkcfg 0 0 10%Z 64).
-  exists [StR 0 [Oset [97] [49]; Oexpose [97]]; StR 0 [Ohow 2%Z]; StT 6%Z; StR 0 [Oset [98] [50]]; StT 6%Z; StR 0 [Oset [98] [51]]].
-  vm_compute. repeat split.
+  cbv zeta. split; [|split; vm_compute; reflexivity].
+  apply (no_deletion_cookie_for_hidden_key_on_resend _ _ _ _ _ [98] [50]).
+  - right. left. reflexivity.
+  - cbn. repeat constructor.
+  - intros v2 [H|[H|[H|[]]]]; discriminate H.
+  - intros c [H|[H|[]]]; discriminate H.
 Qed.
-Print Assumptions exposed_not_renewed_refuted.
 
 (* ------------------------------------------------------------------------------------------------------------
    9. tie: the character class of valid_sid in the model is the one regenerated from src/session_sid.cpp *)
